@@ -22,7 +22,7 @@ def check(ctx):
     rep.floor("timestamp formatting call sites", nt, 2)
     E = [b.id for b in prog.bodies.values() if b.file.startswith("src/haystack/timezone/") or b.file.endswith("val/datetime.rs")]
     rep.floor("timezone / DateTime functions", len(E), 15)
-    pr = panic.PanicRule(ctx)
+    pr = panic.PanicRule(ctx, parsed_timestamps_only=True)
     reach, nsites = pr.run(E, rep)
     rep.assume("A7: chrono's FixedOffset Display is +HH:MM[:SS]")
     rep.note("Not decided: DST edges, zone-name resolution order, sub-second digits, equality of offsets after a round trip - these quantify over instants x the IANA database.")
